@@ -97,6 +97,7 @@ namespace {
 
     struct Case
     {
+        bool              strict_radio = false;   // replay of F-27b: the radio behaves like the hardware bindings when the receive ring is full
         int               cfg = 0;
         conn_params       p;
         std::vector< Op > ops;
@@ -307,7 +308,7 @@ namespace {
             { 2, simple( OP_IDLE, rc::gen::map( verif::range< int >( 1, 3 ), [ per_40s ]( int d ) { return static_cast< int >( std::max< long >( 1, std::min< long >( 6000, per_40s * d / 4 ) ) ); } ) ) },
             { 3, simple( OP_MISS, verif::range< int >( 1, 3 ) ) },
             { 5, simple( OP_NOACK, verif::range< int >( 1, 4 ) ) },
-            { 15, app },
+            { 10, app },
         } );
     }
 
@@ -333,6 +334,8 @@ namespace {
     std::string to_text( const Case& c )
     {
         std::ostringstream os;
+        if ( c.strict_radio )
+            os << "param strict-radio=1\n";
         os << "cfg " << c.cfg << " " << params_text( c.p ) << "  # " << configs()[ c.cfg ].name << "\n";
         for ( auto& o : c.ops )
         {
@@ -365,6 +368,11 @@ namespace {
         for ( auto& l : L.lines )
         {
             Op o;
+            if ( l[ 0 ] == "param" )
+            {
+                c.strict_radio = kvi( l, "strict-radio", 0 ) != 0;
+                continue;
+            }
             if ( l[ 0 ] == "cfg" )
             {
                 c.cfg = static_cast< int >( verif::tok_int( l, 1 ) ) % static_cast< int >( configs().size() );
@@ -486,7 +494,7 @@ namespace {
         v_prot              = 17;
         auto    dev         = cf.make();
         central cen( *dev );
-        cen.lenient_when_rx_full = verif::opt_has( "avoid", "F-27b" ) || verif::opt_has( "exclude", "F-27b" );
+        cen.lenient_when_rx_full = ( verif::opt_has( "avoid", "F-27b" ) || verif::opt_has( "exclude", "F-27b" ) ) && !c.strict_radio;
         dev->run();
         const unsigned sup = static_cast< unsigned >( dev->features() );
 
@@ -502,11 +510,13 @@ namespace {
         std::uint16_t              instant         = 0;
         bool                       big_burst_of_callbacks = false;
         // evidence: delivered PDUs that produce an application callback, in order, per callback kind
-        std::deque< bool >         q_rejected, q_unknown;     // value: ends the own procedure that is running
+        std::deque< unsigned >     q_rejected, q_unknown;     // value: generation of the own procedure the PDU ends (0: none)
+        unsigned                   own_gen = 0;               // counts the procedures the application started
         std::deque< int >          q_phy_now;                 // PHY update indications without change
         std::size_t                cb_seen = 0, tx_seen = 0;
         unsigned                   total_events = 0;
         int                        noack_left   = 0;
+        int                        consecutive_missed = 0;   // kept below the supervision timeout by construction
         unsigned                   async_fired_seen = 0;
         int                        async_answer = 1;
         bool                       own_hint = false;
@@ -558,6 +568,18 @@ namespace {
         // ---- what the reference expects for one PDU the peripheral took
         auto on_delivered = [&]( const Op& o, std::uint16_t counter ) {
             const bool own_started = own.started || own_hint;
+            {
+                // a PDU that ends a procedure crosses the request of the application that is queued, but not on the air yet:
+                // the specification does not say whether it answers that request
+                const std::size_t l = 1 + o.body.size();
+                if ( own.kind >= 0 && !own_started
+                    && ( ( o.opcode == 0x00 && l == 12 ) || ( o.opcode == 0x0C && l == 6 ) || ( o.opcode == 0x07 && l == 2 ) || ( o.opcode == 0x11 && l == 3 ) || ( o.opcode == 0x0D && l == 2 )
+                        || ( o.opcode == 0x18 && l == 5 ) ) )
+                {
+                    own.unconstrained = true;
+                    labels.insert( "own:request-crossed-by-an-answer" );
+                }
+            }
             const int  len       = 1 + static_cast< int >( o.body.size() );
             const int  op        = o.opcode;
             const int  sl        = spec_len( op );
@@ -597,7 +619,7 @@ namespace {
                     unknown_seen = true;
                     const bool ends = own.kind >= 0 && own_started
                         && ( ( own.kind == APP_CPR && o.body[ 0 ] == 0x0F ) || ( own.kind == APP_PHY && o.body[ 0 ] == 0x16 ) || ( own.kind == APP_VER && o.body[ 0 ] == 0x0C ) );
-                    q_unknown.push_back( ends && own.kind != APP_VER );
+                    q_unknown.push_back( ends && own.kind != APP_VER ? own_gen : 0u );
                     if ( ends )
                         own.maybe = true;
                 }
@@ -675,9 +697,6 @@ namespace {
                 labels.insert( "pdu:enc-req" );
                 enc_req_seen = true;
                 // LL_START_ENC_REQ / the reject follows LL_ENC_RSP, but may be overtaken by the responses to later PDUs
-                for ( std::size_t k = expect.size(); k-- > 0; )
-                    if ( expect[ k ].what == Expect::ENC_FOLLOW )
-                        expect.erase( expect.begin() + static_cast< long >( k ) );
                 push( Expect::ENC_RSP );
                 push( Expect::ENC_FOLLOW, true );
                 expect.back().floating = true;
@@ -733,7 +752,7 @@ namespace {
                 const bool ends = own.kind >= 0 && own_started
                     && ( op == 0x0D || ( own.kind == APP_CPR && o.body[ 0 ] == 0x0F ) || ( own.kind == APP_PHY && o.body[ 0 ] == 0x16 ) || ( own.kind == APP_VER && o.body[ 0 ] == 0x0C ) );
                 // certain only for the answers the specification defines
-                q_rejected.push_back( ends && ( own.kind != APP_VER ) && !( op == 0x0D && own.kind == APP_PHY ) );
+                q_rejected.push_back( ends && ( own.kind != APP_VER ) && !( op == 0x0D && own.kind == APP_PHY ) ? own_gen : 0u );
                 if ( ends )
                     own.maybe = true;
             }
@@ -790,6 +809,9 @@ namespace {
                 }
                 // match against the expected responses: in order; optional ones may be absent, floating ones may be overtaken
                 bool matched = false;
+                // LL_VERSION_IND on behalf of remote_versions_request() can not be told from the response: it is taken as the
+                // request of the application, unless the response is the very next PDU the reference waits for
+                const bool own_version_possible = op == 0x0C && o.size() == 6 && app_ver_to_send > 0;
                 for ( std::size_t idx = 0; idx < expect.size() && !matched; ++idx )
                 {
                     if ( expect[ idx ].matches( o ) )
@@ -800,7 +822,7 @@ namespace {
                                 expect.erase( expect.begin() + static_cast< long >( j ) );
                         matched = true;
                     }
-                    else if ( !expect[ idx ].floating && !expect[ idx ].optional )
+                    else if ( !expect[ idx ].floating && ( !expect[ idx ].optional || own_version_possible ) )
                         break;
                 }
                 if ( matched )
@@ -846,7 +868,7 @@ namespace {
                     auto& q = e.kind == CB_REJECTED ? q_rejected : q_unknown;
                     if ( !q.empty() )
                     {
-                        if ( q.front() && own.kind >= 0 && own.started && !own.certain )
+                        if ( q.front() != 0 && q.front() == own_gen && own.kind >= 0 && own.started && !own.certain )
                         {
                             own.certain   = true;
                             own.t_certain = now;
@@ -1006,6 +1028,7 @@ namespace {
             const bool ack = noack_left <= 0;
             const auto res = cen.event( burst, ack );
             ++total_events;
+            consecutive_missed = 0;
             if ( trace )
                 std::cerr << "event t=" << cen.now_us / 1000 << "ms counter " << counter << " burst " << burst_ops.size() << " delivered " << res.delivered
                           << ( ack ? "" : " (no ack)" ) << ( res.link_closed ? " LINK CLOSED" : "" ) << "\n";
@@ -1045,7 +1068,7 @@ namespace {
             after_callback( op_index );
         };
 
-        constexpr unsigned max_events = 24000;
+        constexpr unsigned max_events = 12000;
 
         // ---- the history
         for ( std::size_t i = 0; i < c.ops.size(); ++i )
@@ -1060,11 +1083,6 @@ namespace {
                     if ( !no_foreign_answers || own.kind < 0 )
                         return false;
                     const std::size_t len = 1 + x.body.size();
-                    // ... and anything that ends a procedure before the request was on the air
-                    if ( !own.started
-                        && ( ( x.opcode == 0x00 && len == 12 ) || ( x.opcode == 0x0C && len == 6 && !ver_seen ) || ( x.opcode == 0x07 && len == 2 ) || ( x.opcode == 0x11 && len == 3 )
-                            || ( x.opcode == 0x0D && len == 2 ) ) )
-                        return true;
                     if ( x.opcode == 0x00 && len == 12 )
                         return own.kind != APP_CPR;
                     if ( x.opcode == 0x0C && len == 6 )
@@ -1086,15 +1104,12 @@ namespace {
                     burst.push_back( &c.ops[ ++i ] );
                 if ( avoid && instant_carrier( o ) && cen.connected() )
                 {
+                    // the PDU is handled in the event it is sent in: nothing queued in either direction
                     noack_left = 0;
-                    for ( int k = 0; k != 16 && cen.connected() && total_events < max_events; ++k )
+                    for ( int k = 0, quiet = 0; k != 24 && quiet < 2 && cen.connected() && total_events < max_events; ++k )
                     {
-                        bool due = false;
-                        for ( auto& e : expect )
-                            due = due || !e.optional;
-                        if ( !due && k >= 2 )
-                            break;
                         do_event( {}, i );
+                        quiet = cen.last_event_quiet ? quiet + 1 : 0;
                     }
                 }
                 if ( avoid && instant_pending )
@@ -1115,8 +1130,9 @@ namespace {
             case OP_MISS:
                 if ( !ensure_connected() )
                     break;
-                for ( int k = 0; k != std::min( o.n, 3 ) && cen.connected(); ++k )
+                for ( int k = 0; k != o.n && consecutive_missed < 3 && cen.connected(); ++k )
                 {
+                    ++consecutive_missed;
                     cen.missed();
                     if ( instant_pending && cen.connected() && static_cast< std::int16_t >( dev->event_counter() - instant ) > 0 )
                         instant_pending = false;
@@ -1130,7 +1146,7 @@ namespace {
             case OP_APP: {
                 if ( !ensure_connected() || own.kind >= 0 )
                     break;
-                if ( no_foreign_answers && instant_pending && update_pending )
+                if ( no_foreign_answers && instant_pending && update_pending && o.app != APP_CPR && o.app != APP_ICPR )
                 {
                     // F-27c: the connection update that is pending (sent before this request) would stop the response timer of this procedure
                     rep.excluded = true;
@@ -1148,6 +1164,7 @@ namespace {
                 if ( ok )
                 {
                     own      = Own();
+                    ++own_gen;
                     own.kind = o.app == APP_ICPR ? APP_CPR : o.app;
                     // the request can not be queued before the connection event that follows this call
                     own.t_q         = cen.anchor_us;
@@ -1160,6 +1177,8 @@ namespace {
                     }
                     if ( own.kind == APP_CPR && ( unknown_seen || old_version_seen ) )
                         own.unconstrained = true;       // the request may go out on the L2CAP signalling channel instead
+                    if ( own.kind == APP_CPR && instant_pending && update_pending )
+                        own.unconstrained = true;       // a connection update of the central is pending: it can not be told from an answer
                 }
                 labels.insert( ok ? "app:request-accepted" : "app:request-refused" );
             }
